@@ -18,7 +18,8 @@ RULE = ('Hypothesis documents (profile "full" with global comments before the he
         'sub-sequence with category in the README-tree closure of the filter; unique listing == first occurrences by '
         'encoding; frequencies sum to the listing and agree per encoding; get_metacomments == the "!!" lines in order, '
         'with key == those starting with "!!!key"; is_monophonic == (one **kern header and no chord and >=1 '
-        'note/rest); before every document four small scores with other spine layouts are imported, queried and released.  A second run uses degenerate documents (no barline, zero to two data rows, no null tokens in the '
+        'note/rest).  One deterministic case is a stream of 60+ small scores with five different spine layouts, each imported, queried and '
+        'released before the next is imported (answers must not be inherited from a released document).  A second run uses degenerate documents (no barline, zero to two data rows, no null tokens in the '
         'data rows, with or without a **kern spine); a third one documents without any **kern spine whose notes live in '
         '**root spines (next to **text / **dynam / **harm).  Non-trivial: the document has a split and at least one global comment after the header.')
 ASSUMPTIONS = ['kv/spine.py depth-first order', 'kv/cats.py closure',
@@ -61,21 +62,39 @@ def enc_of(c):
     return c['e'] if c['k'] == 'bar' else c['t']
 
 
+def check_stream(case):
+    """a stream of small scores with different spine layouts, each imported, queried and RELEASED before the next one is
+    imported (a corpus loop in one process): every score gets its own answers, wherever in memory it happens to live"""
+    import gc
+    n = 0
+    for rnd in range(case['rounds']):
+        for t_ in _THROWAWAY:
+            d_ = kp.loads(t_)[0]
+            grid_ = [l.split('\t') for l in t_.split('\n') if l]
+            cols = [[r[k] for r in grid_] for k in range(len(grid_[0]))]
+            exp_types, exp_list = grid_[0], [c for col in cols for c in col]
+            exp_mono = exp_types.count('**kern') == 1 and not any(' ' in c for c in exp_list) and any(c[0].isdigit() for c in exp_list)
+            got = (kp.is_monophonic(d_), kp.spine_types(d_), d_.get_all_tokens_encodings(), sum(v['occurrences'] for v in d_.frequencies().values()),
+                   kp.spine_types(d_, ['**kern']), d_.get_unique_token_encodings())
+            exp = (exp_mono, exp_types, exp_list, len(exp_list), [t for t in exp_types if t == '**kern'], list(dict.fromkeys(exp_list)))
+            n += 1
+            if got != exp:
+                j = next(i for i in range(len(exp)) if got[i] != exp[i])
+                what = ['is_monophonic', 'spine_types', 'get_all_tokens_encodings', 'frequencies (sum)', "spine_types(['**kern'])", 'get_unique_token_encodings'][j]
+                raise Bad('answers-of-a-released-document', f'score {n} of a stream of scores that are imported, queried and released one after the other: '
+                                                            f'{what} = {got[j]!r}, expected {exp[j]!r}\n{t_}')
+            del d_
+            gc.collect()
+    return Result(nontrivial=True, classes=['stream-of-released-documents'], evals=n, sample={'stream': n}, key=['stream', case])
+
+
 _THROWAWAY = ['**kern\n*clefG2\n4c\n4d\n*-\n', '**kern\t**kern\n*clefF4\t*clefG2\n4C\t4c\n*-\t*-\n', '**text\nla\n*-\n',
-              '**kern\t**text\t**kern\n4c 4e\tla\t4g\n*-\t*-\t*-\n']
+              '**kern\t**text\t**kern\n4c 4e\tla\t4g\n*-\t*-\t*-\n', '**kern\t**dynam\n4c\tf\n4c\tf\n*-\t*-\n']
 
 
 def check(case):
     doc = case['doc']
     text = S.render(doc)
-    # documents that were queried and released before this one was imported (a stream of scores in one process): the
-    # answers for this document are its own, wherever in memory it happens to live
-    import gc
-    for t_ in _THROWAWAY:
-        d_ = kp.loads(t_)[0]
-        kp.is_monophonic(d_), kp.spine_types(d_), d_.get_all_tokens_encodings(), d_.frequencies()
-        del d_
-    gc.collect()
     kdoc = K.loads_clean(text)
     a = S.analyze(doc)
     rows = doc['rows']
@@ -154,6 +173,7 @@ def check(case):
 
 
 def run(ctx):
+    ctx.check_all([{'rounds': 12 + ctx.shard}], check_stream)
     if ctx.shard == 0:  # one long score (tree depth == number of rows)
         ctx.check_all([{'doc': D.long_document(1150 + 29 * (ctx.seed % 9), ctx.seed), 'filters': [['CORE'], ['BARLINES', 'LYRICS']], 'shape': 'list'}], check)
     ctx.run_hypothesis(cases(), check, max_examples=250 if ctx.quick else 2000, label='queries')
@@ -162,4 +182,6 @@ def run(ctx):
 
 
 def replay(case):
+    if 'rounds' in case:
+        return check_stream(case)
     return check(case)
